@@ -13,47 +13,62 @@ CONSTANTS Contents,     \* content values offered to new/append/add
           MaxOps,       \* bound on the history length
           IsComment     \* TRUE: the object is a cpp_gen.Comment ('// ' bullets applied at render time)
 
-VARIABLES hdr, lines, hist
-vars == <<hdr, lines, hist>>
+VARIABLES hdr, lines, hist,
+          ind           \* the indenter configuration the block currently holds (set_indentor / indent(x) keep it)
+vars == <<hdr, lines, hist, ind>>
 
-Init == hdr = <<>> /\ lines = <<>> /\ hist = <<>>
+DefaultCfg == [tab |-> FALSE, n |-> 4, mode |-> "none", glyph |-> <<>>]     \* Indentizer()
+CommentCfg == [tab |-> FALSE, n |-> 3, mode |-> "all", glyph |-> <<47, 47>>]
+InitialCfg == IF IsComment THEN CommentCfg ELSE DefaultCfg
+
+Init == hdr = <<>> /\ lines = <<>> /\ hist = <<>> /\ ind = InitialCfg
 
 Log(op) == hist' = Append(hist, op)
 
 \* TextBlock(content, header)
 TbNew(c, h) == /\ hist = <<>>
                /\ hdr' = (IF Truthy(h) THEN AppendLines(h) ELSE <<>>)
-               /\ lines' = AppendLines(c)
+               /\ lines' = AppendLines(c) /\ ind' = InitialCfg
                /\ Log([op |-> "new", c |-> c, h |-> h])
 
 \* append(content) and the in-place operator +=
 TbAppend(c) == /\ hist # <<>>
-               /\ lines' = lines \o AppendLines(c) /\ UNCHANGED hdr
+               /\ lines' = lines \o AppendLines(c) /\ UNCHANGED <<hdr, ind>>
                /\ Log([op |-> "append", c |-> c])
 
 TbIAdd(c) == /\ hist # <<>>
-             /\ lines' = lines \o AppendLines(c) /\ UNCHANGED hdr
+             /\ lines' = lines \o AppendLines(c) /\ UNCHANGED <<hdr, ind>>
              /\ Log([op |-> "iadd", c |-> c])
 
-\* self + content: a NEW block without header; the machine continues with the result
+\* self + content: a NEW block without header and with a fresh default indenter; the machine continues with the result
 TbAdd(c) == /\ hist # <<>>
-            /\ lines' = lines \o AppendLines(c) /\ hdr' = <<>>
+            /\ lines' = lines \o AppendLines(c) /\ hdr' = <<>> /\ ind' = DefaultCfg
             /\ Log([op |-> "add", c |-> c])
 
 TbTrim(e) == /\ hist # <<>>
-             /\ lines' = TrimLines(lines, e) /\ UNCHANGED hdr
+             /\ lines' = TrimLines(lines, e) /\ UNCHANGED <<hdr, ind>>
              /\ Log([op |-> "trim", endOnly |-> e])
 
-\* indent(indentizer): the buffer is replaced, the header is never indented
+\* indent(indentizer): the buffer is replaced, the header is never indented; the given indenter becomes the
+\* block's configured one ("specified in one sweep"), so a later bare indent() uses it again
 TbIndent(cfg) == /\ hist # <<>>
-                 /\ lines' = ToList(cfg, lines) /\ UNCHANGED hdr
+                 /\ lines' = ToList(cfg, lines) /\ ind' = cfg /\ UNCHANGED hdr
                  /\ Log([op |-> "indent", cfg |-> cfg])
 
+\* indent() without argument: the configured indenter
+TbIndentBare == /\ hist # <<>>
+                /\ lines' = ToList(ind, lines) /\ UNCHANGED <<hdr, ind>>
+                /\ Log([op |-> "indentbare"])
+
+\* set_indentor(indentizer): configuration only
+TbSetIndentor(cfg) == /\ hist # <<>>
+                      /\ ind' = cfg /\ UNCHANGED <<hdr, lines>>
+                      /\ Log([op |-> "setind", cfg |-> cfg])
+
 \* cpp_gen.Comment.__str__: indents a deep copy, the object itself is left alone
-CommentCfg == [tab |-> FALSE, n |-> 3, mode |-> "all", glyph |-> <<47, 47>>]
 Render == StrOfBlock(<<>>, ToList(CommentCfg, lines))
 TbRender == /\ IsComment /\ hist # <<>>
-            /\ UNCHANGED <<hdr, lines>>
+            /\ UNCHANGED <<hdr, lines, ind>>
             /\ Log([op |-> "render"])
 
 Next == /\ Len(hist) < MaxOps
@@ -62,7 +77,9 @@ Next == /\ Len(hist) < MaxOps
            \* `comment + x` is a plain TextBlock, no longer text rendered as a comment: not part of the comment machine
            \/ \E c \in Contents : ~IsComment /\ TbAdd(c)
            \/ \E e \in BOOLEAN : TbTrim(e)
-           \/ \E cfg \in Cfgs : TbIndent(cfg)
+           \/ \E cfg \in Cfgs : TbIndent(cfg) \/ TbSetIndentor(cfg)
+           \* a Comment's own indenter is its '//' rendering: bare indent()/set_indentor on it are outside the comment machine
+           \/ ~IsComment /\ TbIndentBare
            \/ TbRender
 
 Spec == Init /\ [][Next]_vars
@@ -90,8 +107,10 @@ TrimOnlyEnds == [][\A e \in BOOLEAN : TbTrim(e) =>
 \* appending is concatenation; the header is never touched by append/trim/indent
 AppendIsConcat == [][\A c \in Contents : TbAppend(c) =>
                        (SubSeq(lines', 1, Len(lines)) = lines /\ hdr' = hdr)]_vars
-HeaderUntouched == [][(\E cfg \in Cfgs : TbIndent(cfg)) => hdr' = hdr]_vars
-IndentKeepsCount == [][(\E cfg \in Cfgs : TbIndent(cfg)) => Len(lines') = Len(lines)]_vars
+HeaderUntouched == [][((\E cfg \in Cfgs : TbIndent(cfg)) \/ TbIndentBare) => hdr' = hdr]_vars
+IndentKeepsCount == [][((\E cfg \in Cfgs : TbIndent(cfg)) \/ TbIndentBare) => Len(lines') = Len(lines)]_vars
+\* a bare indent() right after indent(cfg) indents with cfg again (repeated indentation with the configured indenter)
+BareUsesConfigured == [][TbIndentBare => lines' = ToList(ind, lines)]_vars
 
 (***************************************************************************)
 (* C19 on the model: rendered comment lines all start with '//' and carry  *)
